@@ -8,6 +8,9 @@ package main
 
 import (
 	"fmt"
+	"os"
+	"sort"
+	"strings"
 
 	"istio.io/istio/pilot/pkg/model"
 	v3 "istio.io/istio/pilot/pkg/xds/v3"
@@ -24,6 +27,41 @@ type hist struct {
 	acked     string      // nonce of the last response the client acknowledged
 	lastErr   string      // message of the last rejection, until the next acknowledgement
 	warm      bool        // a CDS watch was created while this (EDS) watch existed, and no request has consumed it
+}
+
+// stats: how often each clause / type / class was exercised by an oracle run (written next to the verdicts, read by
+// the check into the evidence counters).
+var stats = map[string]int{}
+
+func stat(keys ...string) {
+	for _, k := range keys {
+		stats[k]++
+	}
+}
+
+func dumpStats(verdictPath string) {
+	keys := make([]string, 0, len(stats))
+	for k := range stats {
+		keys = append(keys, k)
+	}
+	sort.Strings(keys)
+	var b strings.Builder
+	for _, k := range keys {
+		fmt.Fprintf(&b, "%s %d\n", k, stats[k])
+	}
+	_ = os.WriteFile(verdictPath+".stats", []byte(b.String()), 0o644)
+}
+
+// note records one classified request in the stats and hands the expectation on.
+func note(proto, t string, e expect) expect {
+	answered := "silent"
+	if e.respond {
+		answered = "answered"
+	} else if e.either {
+		answered = "observation"
+	}
+	stat("clause."+e.clause, "class."+proto+"."+answered, "type."+t)
+	return e
 }
 
 type histOracle struct {
@@ -68,6 +106,10 @@ type expect struct {
 
 // expectSotw classifies a state-of-the-world request and advances the history.
 func (o *histOracle) expectSotw(t string, names []string, nonce string, errMsg *string) expect {
+	return note("sotw", t, o.expectSotw0(t, names, nonce, errMsg))
+}
+
+func (o *histOracle) expectSotw0(t string, names []string, nonce string, errMsg *string) expect {
 	h := o.get(t)
 	switch {
 	case errMsg != nil && h.exists:
@@ -117,6 +159,10 @@ func (o *histOracle) expectSotw(t string, names []string, nonce string, errMsg *
 
 // expectDelta classifies a delta request and advances the history.
 func (o *histOracle) expectDelta(t string, sub, unsub, init []string, nonce string, errMsg *string) expect {
+	return note("delta", t, o.expectDelta0(t, sub, unsub, init, nonce, errMsg))
+}
+
+func (o *histOracle) expectDelta0(t string, sub, unsub, init []string, nonce string, errMsg *string) expect {
 	h := o.get(t)
 	carries := len(sub) > 0 || len(unsub) > 0
 	isErr := errMsg != nil
